@@ -339,6 +339,25 @@ impl HelperDef for RcState {
     }
 }
 
+static COUNTER: std::sync::atomic::AtomicUsize = std::sync::atomic::AtomicUsize::new(0);
+
+/// writes the number of its earlier invocations in this render (reset before every render op)
+struct Counter;
+impl HelperDef for Counter {
+    fn call<'reg: 'rc, 'rc>(
+        &self,
+        _: &Helper<'rc>,
+        _: &'reg Handlebars<'reg>,
+        _: &'rc Context,
+        _: &mut RenderContext<'reg, 'rc>,
+        out: &mut dyn Output,
+    ) -> HelperResult {
+        let n = COUNTER.fetch_add(1, std::sync::atomic::Ordering::SeqCst);
+        out.write(&n.to_string())?;
+        Ok(())
+    }
+}
+
 struct VRet;
 impl HelperDef for VRet {
     fn call_inner<'reg: 'rc, 'rc>(
@@ -407,6 +426,7 @@ fn mk_registry(cfg: &Value) -> Handlebars<'static> {
                 "evalp" => r.register_helper(name, Box::new(EvalP)),
                 "rcstate" => r.register_helper(name, Box::new(RcState)),
                 "vret" => r.register_helper(name, Box::new(VRet)),
+                "counter" => r.register_helper(name, Box::new(Counter)),
                 "macro" => {
                     let sig_name = h["sig"]["name"].as_str().unwrap();
                     if !macro_helpers::register(&mut r, name, sig_name) {
@@ -457,6 +477,7 @@ impl Write for FaultWriter {
 }
 
 fn render_once(r: &Handlebars<'static>, op: &Value) -> Value {
+    COUNTER.store(0, std::sync::atomic::Ordering::SeqCst);
     let api = op.get("api").and_then(|v| v.as_str()).unwrap_or("render");
     let data = decode_data(op.get("data").unwrap_or(&Value::Null));
     let name = op.get("name").and_then(|v| v.as_str()).unwrap_or("");
